@@ -508,11 +508,14 @@ theorem tdiv_inR (t : ITy) (hw : 1 ≤ t.w) (x y : Int) (hx : t.inR x = true) (h
 /-! ## single-bit access -/
 
 
-theorem bitPosPre_ok (w pos : Nat) (hw31 : w < 2^31) (hpos : pos < w) : bitPosPre w pos = true := by
-  unfold bitPosPre
-  have : i32.inR (pos : Int) = true := by
-    rw [inR_iff]; unfold i32 ITy.min ITy.max; simp; omega
-  rw [conv_of_inR i32 (by decide) _ this]; simp; omega
+/-- `static_cast<UInt>(numeric_limits<UInt>::digits)` is the width itself -/
+theorem digits_as_uint (w : Nat) : w % 2 ^ w = w := Nat.mod_eq_of_lt Nat.lt_two_pow_self
+
+theorem bitPosPre_iff (w pos : Nat) : bitPosPre w pos = true ↔ pos < w := by
+  unfold bitPosPre; rw [digits_as_uint]; simp
+
+theorem bitPosPre_ok (w pos : Nat) (hpos : pos < w) : bitPosPre w pos = true :=
+  (bitPosPre_iff w pos).2 hpos
 
 theorem oneShl_ok (w pos : Nat) (hpos : pos < w) : oneShl w pos = .ok (2^pos) := by
   unfold oneShl
